@@ -469,6 +469,15 @@ func (f *FnVC) havocCall(st *State, fn *ssa.Function, c *ssa.CallCommon, args []
 // havocByModset forgets every heap component the callee may write.
 func (f *FnVC) havocByModset(st *State, fn *ssa.Function, c *ssa.CallCommon, args []Val) {
 	ms := f.E.modsetOfCall(f, fn, c)
+	// a closure handed to the callee may be run by it: its effects belong to the call
+	for _, a := range c.Args {
+		if mc, ok := a.(*ssa.MakeClosure); ok {
+			cp := newModset()
+			cp.union(ms)
+			cp.union(f.E.modsetOfFunc(mc.Fn.(*ssa.Function), map[*ssa.Function]bool{}))
+			ms = cp
+		}
+	}
 	before := st.clone()
 	// State guarded by a lock we hold exclusively cannot be written by other goroutines, and code we reach only through
 	// function values (unknown effects) is assumed to respect the lock discipline, i.e. not to write it either (it could
